@@ -138,10 +138,11 @@ fn writer_phase(s: &C14, obs: &Rc<RefCell<Obs>>) -> Result<Written, Violation> {
     let total: u64 = payloads.iter().flatten().map(|p| p.len() as u64 + 4).sum();
     // a benign write_all takes one call per frame; scripted short writes at most one extra call per lane step
     // implementation-agnostic: even a writer that offered one byte per call would stay below this
-    let budget = s.w_sink.len() as u64 * (1 + s.lane_repeat as u64) + 8 * (n + 1) + 64 + 2 * total;
+    let budget = s.w_sink.len() as u64 * (1 + s.lane_repeat as u64) + 8 * (n + 1) + 64 + byte_budget(total as usize);
     let core = SinkCore::new(s.w_sink.clone(), None, budget, obs.clone());
     core.borrow_mut().allow_fatal = s.w_fatal;
     core.borrow_mut().repeat_left = s.lane_repeat;
+    core.borrow_mut().data_cap = 2 * total as usize + 65_536;
     {
         let mut layout = Layout::default();
         let mut off = 0;
@@ -401,7 +402,7 @@ impl<'a> FamVisitor for RVisit<'a> {
         // ---- world
         let n = expected.len() as u64;
         // implementation-agnostic: even a reader that asked for one byte per call would stay below this
-        let budget = s.r_src.len() as u64 * (1 + s.lane_repeat as u64) + 8 * (n + 2) + 64 + 2 * stream.len() as u64;
+        let budget = s.r_src.len() as u64 * (1 + s.lane_repeat as u64) + 8 * (n + 2) + 64 + byte_budget(stream.len());
         let core = SrcCore::new(stream.clone(), s.r_src.clone(), layout, budget, obs.clone());
         core.borrow_mut().allow_fatal = s.r_fatal;
         core.borrow_mut().scribble = s.scribble;
